@@ -347,7 +347,11 @@ func (o *Object) NextElementBytes(dst *Iter) (name []byte, t Type, err error) {
 	case TagObjectEnd:
 		return nil, TypeNone, nil
 	case TagNop:
-		o.off += int(v & JSONVALUEMASK)
+		skip := int(v & JSONVALUEMASK)
+		if skip <= 0 {
+			return nil, TypeNone, fmt.Errorf("object: NOP entry does not advance")
+		}
+		o.off += skip
 		return o.NextElementBytes(dst)
 	default:
 		return nil, TypeNone, fmt.Errorf("object: unexpected tag %c", byte(v>>56))
